@@ -31,3 +31,11 @@ for d in harness/cmd/*/; do
   n=$(basename "$d")
   (cd harness && go build -tags verif -o bin/$n ./cmd/$n) && echo "built $n"
 done
+# reference go-ethereum drivers (second module importing only github.com/ethereum/go-ethereum v1.8.27)
+python3 -c "from tools.engines import c11; c11.sync_ref('statedb','refstatedb'); c11.sync_ref('evmframes','refevm')"
+cp /repo/go.sum harness-ref/go.sum
+mkdir -p harness-ref/bin
+for d in harness-ref/cmd/*/; do
+  n=$(basename "$d")
+  (cd harness-ref && go build -o bin/$n ./cmd/$n) && echo "built ref $n"
+done
